@@ -706,7 +706,7 @@ func init() {
 						if oz > 0 {
 							emit(fn, st, false, w.Strs(ids), w.I(outH), w.I(oz-1), w.F(mx), w.F(mn))
 						}
-						if outH > 1 {
+						if outH > 1 && outH <= 31 {
 							emit(fn, st, false, w.Strs(ids), w.I(outH-1), w.I(oz), w.F(mx), w.F(mn))
 						}
 						emit(fn, st, false, w.Strs(ids), w.I(outH), w.I(oz), w.F(mx), w.F(mn))
@@ -720,7 +720,7 @@ func init() {
 				outV := int64(35)
 				type it struct {
 					qz, qk, vz, k int64
-					mx, mn      float64
+					mx, mn        float64
 				}
 				var its []it
 				for j := 0; j < nit; j++ {
